@@ -337,6 +337,13 @@ Definition mark_imported (img : image) : image :=
   mkImg (i_index img) (i_term img) (i_mem img) (i_od img) (i_sessions img) (i_data img)
         (i_dummy img) (i_witness img) true (i_shrunk img).
 
+(* StateMachine.ReadyToStream, consulted by node.canStream for every Stream task:
+   a restarted on-disk replica whose applied position is still below the index
+   its state machine returned from Open must not stream (its metadata would be
+   older than its user data) *)
+Definition ready_to_stream (cfg : config) (st : state) : bool :=
+  if c_ondisk cfg then r_od_init st <=? r_last_index st else true.
+
 (* ---- recover ---------------------------------------------------------------- *)
 (* OpenOnDiskStateMachine: the user state machine reports the index of the last
    entry it has durably applied *)
@@ -525,6 +532,9 @@ Definition rsm_state := @state N Session.acc_result.
 Definition rsm_init (cap : N) (s0 : N) : rsm_state := init_state cap s0.
 Definition rsm_apply_task := @apply_task N Session.acc_result Session.acc_update Membership.norm_ascii.
 Definition rsm_run_entries := @run_entries N Session.acc_result Session.acc_update Membership.norm_ascii.
+Definition rsm_entries_to_apply := @entries_to_apply.
+Definition rsm_set_last_applied := @set_last_applied N Session.acc_result.
+Definition rsm_ready_to_stream := @ready_to_stream N Session.acc_result.
 Definition rsm_prepare := @prepare N Session.acc_result.
 Definition rsm_finish_save := @finish_save N Session.acc_result Session.acc_save.
 Definition rsm_snapshot := @snapshot N Session.acc_result Session.acc_save.
